@@ -132,7 +132,7 @@ func (g *Generator) Generate(dict *dictionary.Dictionary) ([]byte, error) {
 		}
 
 		invalid := false
-		if len(attr.OID) != 1 {
+		if len(attr.OID) != 1 || attr.OID[0] < 0 || attr.OID[0] > math.MaxUint8 {
 			invalid = true
 		}
 		if attr.Size.Valid {
